@@ -22,6 +22,7 @@ RULE = (
     "non-trivial = the history has a consumer operation and a producer operation and at least one "
     "receive was suspended or cancelled"
 )
+RULE += " Round 19: backlogs of 129 / 200 / 1000 elements (one call, single calls, constructor; with a parked / cancelled receive)."
 RULE += " Round 15: the same histories (L-2) with an earlier event loop of the process still open in which the library was used before."
 ASSUMPTIONS = [
     "single consumer (the class excludes concurrent consumers)",
@@ -67,6 +68,9 @@ def programs(tier: str):
     yield {"fix": True, "backlog": 3, "exc_elements": False, "loop_kw": True, "deadline_s": 3000, "validate": "first" if tier == "quick" else "all"}
     yield {"fix": True, "backlog": 4, "exc_elements": False, "initial": True, "loop_kw": True, "deadline_s": 3000, "validate": "first" if tier == "quick" else "all"}
     yield from _deep_programs(tier)
+    for n in (129, 200, 1000):
+        for how in ("one-call", "single", "initial", "parked", "parked-cancelled"):
+            yield {"big": n, "how": how}
 
 
 def _deep_programs(tier: str):
@@ -312,7 +316,67 @@ def execute_deep(program) -> Result:
     return Result("deep", True, r["violations"], obs, steps=r["operations"])
 
 
+def _big(program) -> Result:
+    """LARGE backlogs (129 / 200 / 1000 elements waiting at once), built by one call, by single
+    calls or by the constructor, with a receive parked before / cancelled in between: everything
+    is delivered, in order, then the finish reason"""
+    n, how = program["big"], program["how"]
+    viols: list[dict] = []
+    loop = VLoop()
+    loop.open()
+    try:
+        want = list(range(n))
+        if how == "initial":
+            q = AsyncQueue(*want)
+        else:
+            q = AsyncQueue()
+        got: list = []
+
+        async def take():
+            return await q.__anext__()
+
+        pending = None
+        if how in ("parked", "parked-cancelled"):
+            pending = loop.create_task(take())
+            loop.run_ready()
+        if how == "one-call":
+            q.enqueue(*want)
+        elif how != "initial":
+            for x in want:
+                q.enqueue(x)
+        if how == "parked-cancelled":
+            pending.cancel()
+            loop.run_ready()
+        elif pending is not None:
+            loop.run_ready()
+            got.append(pending.result())
+        q.finish()
+        end = None
+        for _ in range(n + 3):
+            t = loop.create_task(take())
+            loop.run_ready()
+            if not t.done():
+                viols.append(viol("termination", f"big/{how}/receive-hangs", "every receive ends", len(got)))
+                t.cancel()
+                loop.run_ready()
+                break
+            if t.cancelled() or t.exception() is not None:
+                end = "cancelled" if t.cancelled() else type(t.exception()).__name__
+                break
+            got.append(t.result())
+        if not viols and got != want:
+            first = next((i for i in range(min(len(got), n)) if got[i] != want[i]), min(len(got), n))
+            viols.append(viol("delivery", f"big/{how}/lost-or-reordered", {"count": n, "at": first, "want": want[first : first + 3]}, {"count": len(got), "got": got[first : first + 3]}))
+        if not viols and end != "StopAsyncIteration":
+            viols.append(viol("finish-reason", f"big/{how}/wrong", "StopAsyncIteration", end))
+        return Result(f"big/{how}", True, viols, {"n": n, "how": how, "received": len(got)}, steps=2 * n)
+    finally:
+        loop.shutdown()
+
+
 def execute(program, ch: Chooser) -> Result:  # noqa: C901, PLR0912, PLR0915
+    if program.get("big"):
+        return _big(program)
     if program.get("deep"):
         return execute_deep(program)
     if program.get("fix"):
